@@ -1,3 +1,3 @@
 From Verif Require Import Extract.C17.
 Require Import ExtrOcamlBasic.
-Extraction "c17_model.ml" c17_tidy c17_check c17_mkU c17_mkM.
+Extraction "c17_model.ml" c17_tidy c17_check c17_mkU c17_mkM c17_mc.
